@@ -8,5 +8,5 @@ impl Clone for SymbolicBDDToken { fn clone(&self) -> Self { unimplemented!() } }
 impl Clone for ReferenceContents { fn clone(&self) -> Self { unimplemented!() } }
 impl std::hash::Hash for NamedSymbol { fn hash<H: std::hash::Hasher>(&self, state: &mut H) { unimplemented!() } }
 impl fmt::Display for NamedSymbol { fn fmt(&self, f: &mut fmt::Formatter<'_>) -> fmt::Result { unimplemented!() } }
-impl Default for RefCell<FxHashMap<String, ReferenceContents>> { fn default() -> Self { unimplemented!() } }
+impl<K, V> Default for RefCell<FxHashMap<K, V>> { fn default() -> Self { unimplemented!() } }
 fn main() {}
